@@ -292,6 +292,12 @@ def task_probe_far(pr, repo):
     pr.explore(ex, thunk, 'coupling probe, no interaction')
 
 
+def task_boundary_records(pr, repo, tag):
+    from . import reader
+    reader.explore_steps(pr, repo, reader.check_transition, tags=[tag], names=reader.NAMES, chains_cases=(None,),
+                         keep_protons_cases=(False,), what='C05 part boundary')
+
+
 def run(pr, repo):
     p = cfg.parameters()
     cuts = [p.desolv_cutoff, p.buried_cutoff, p.coulomb_cutoff1, p.coulomb_cutoff2, p.sidechain_cutoffs.default[1]]
@@ -299,7 +305,10 @@ def run(pr, repo):
     cuts += [v[2] for v in list(p.backbone_CO_hydrogen_bond.values()) + list(p.backbone_NH_hydrogen_bond.values())]
     pr.add(Ground('GR: every cut-off of the shipped parameter file is <= 20 A (largest: %s)' % max(cuts), max(cuts) <= 20.0))
     pr.parallel([(task_desolvation, ()), (task_set_determinants, ()), (task_ion_backbone_reorg, ()), (task_smallest, ()),
-                 (task_iterative, ()), (task_probe_far, ()), (C08.task_average_twins, ())])
+                 (task_iterative, ()), (task_probe_far, ()), (C08.task_average_twins, ())] +
+                # order of the parts in the file: the only state carried from one record to the next is the terminus search, and a
+                # TER record (in whatever layout) re-arms it - the record automaton of C01 for the non-ATOM records
+                [(task_boundary_records, (t,)) for t in ('TER   ', 'MODEL ', 'OTHER')])
     pr.assumptions += ['iterative solver: "stopping later does not change a converged component" is NOT proved (fixed point of the '
                        'sweep in degenerate ties) - bounded monitor only', 'composition step; A-REAL',
                        'covalent coupling search is bond-based (C11: bonds need distance <= 2.5 A)']
